@@ -487,6 +487,38 @@ where
     }
 }
 
+/// A thread's view of the [`Barrier`] shared by all threads of a sample.
+///
+/// Every thread waits [`Self::WAIT_COUNT`] times per sample. If the thread
+/// unwinds from a panic in user code, dropping this performs the waits that
+/// were not reached, so that the other threads finish the sample and the panic
+/// gets reported instead of deadlocking.
+struct SampleBarrier<'a> {
+    barrier: &'a Barrier,
+    remaining: std::cell::Cell<u8>,
+}
+
+impl SampleBarrier<'_> {
+    /// Before and after clearing allocation info, and after the sample loop.
+    const WAIT_COUNT: u8 = 3;
+
+    #[inline]
+    fn wait(&self) {
+        self.remaining.set(self.remaining.get().saturating_sub(1));
+        self.barrier.wait();
+    }
+}
+
+impl Drop for SampleBarrier<'_> {
+    fn drop(&mut self) {
+        if std::thread::panicking() {
+            for _ in 0..self.remaining.get() {
+                self.barrier.wait();
+            }
+        }
+    }
+}
+
 /// State machine for how the benchmark is being run.
 #[derive(Clone, Copy)]
 pub(crate) enum BenchMode {
@@ -901,6 +933,13 @@ impl<'a> BenchContext<'a> {
               count_input: &mut dyn FnMut(&I)| {
             let mut defer_store = DeferStore::<I, O>::default();
 
+            // If this thread panics, it must still arrive at the remaining
+            // synchronization points or else other threads wait forever.
+            let barrier = barrier.map(|barrier| SampleBarrier {
+                barrier,
+                remaining: std::cell::Cell::new(SampleBarrier::WAIT_COUNT),
+            });
+
             let mut saved_alloc_info = ThreadAllocInfo::new();
             let mut save_alloc_info = || {
                 if crate::alloc::IGNORE_ALLOC.get() {
@@ -926,11 +965,11 @@ impl<'a> BenchContext<'a> {
             // This ensures work external to the timed section does not affect
             // the timing of other threads.
             let sync_threads = |is_start: bool| {
-                sync_impl(barrier, is_start);
+                sync_impl(barrier.as_ref(), is_start);
 
                 // Monomorphize implementation to reduce code size.
                 #[inline(never)]
-                fn sync_impl(barrier: Option<&Barrier>, is_start: bool) {
+                fn sync_impl(barrier: Option<&SampleBarrier>, is_start: bool) {
                     // Ensure benchmarked section has a `ThreadAllocInfo`
                     // allocated for the current thread and clear previous info.
                     let alloc_info = if is_start {
